@@ -65,7 +65,8 @@ theorem complete_mono {s : State} (hg : Good crc pl blob s) (a : Action) (i : Na
   | reopen =>
     simp only [step]
     split
-    · unfold openTorrent
+    · rw [openTorrent_eq_core hg]
+      unfold openTorrentCore
       have hi : i < s.pieces.length := lt_of_getElem?_some hc
       split
       · simp only
